@@ -37,6 +37,9 @@ fn altitude_value(message: &[u32], code: Option<u16>) -> Option<u32> {
         Some(code) => match code & 0b10 {
             0 => match code & 1 {
                 0 => {
+                    if code >> 2 == 0 {
+                        return None;
+                    }
                     let (high, low) = graytobin(message);
                     let value = high * 500 + low * 100;
                     match value {
